@@ -437,6 +437,20 @@ def fix1(run):
                     continue  # Value::Unknown is "no result yet", only allowed while guessing (checked below)
                 oks.append((bi, st))
         run.check(bool(oks), R, "%s|%s|has-result" % (R, f.id), f.loc(), "%s has %d result-delivering return(s)" % (f.id, len(oks)), "%s never delivers a result" % f.id)
+        # `no value yet` (Unknown) is only answered after the confirming pass found the block unstable, and only while the
+        # enclosing pass may guess
+        if not d.get("returns_counter"):
+            unk = []
+            for bi, si, st in f.stmts():
+                if st["k"] == "assign" and st["place"]["l"] == 0 and not st["place"]["p"] and st["rv"]["k"] == "agg" and st["rv"].get("variant") == "Ok" and st["rv"]["ops"]:
+                    payload = peel(f.origin_op(st["rv"]["ops"][0]))
+                    if payload and payload[0] == "agg" and payload[1].get("variant") == "Unknown":
+                        unk.append((bi, st))
+            confirm = [kb for kb, kt in once if const_int(kt["args"][last_idx]) == 1]
+            for bi, st in unk:
+                good = any(f.dominates(kb, bi) and kb != bi for kb in confirm) and edge_true_dominates(f, lambda dd: "can_guess" in dd, bi)
+                run.check(good, R, "%s|%s|unknown-only-after-confirming" % (R, f.id), f.loc(st["span"]), "%s answers `no value yet` only after its confirming pass, while the enclosing pass may guess" % f.id,
+                          "%s can answer `no value yet` without having run its passes to the confirming pass: a block that needs several passes over its own labels never delivers a value" % f.id)
         # a delivered *value* is the confirming pass's own value, not one kept from a guessing pass
         if not d.get("returns_counter"):
             for bi, st in oks:
